@@ -131,7 +131,7 @@ func (n *c3BigNet) RoundTrip(req *http.Request) (*http.Response, error) {
 	host, path := req.URL.Hostname(), req.URL.Path
 	switch {
 	case host == c3RegHost && strings.Contains(path, "/manifests/"):
-		return c3Resp(req, 200, nil, c3BytesBody(c3ManifestJSON(c3Manifest{layers: []c3Layer{{n.dig, n.v.size}}, config: c3Layer{"e", 0}}))), nil
+		return c3Resp(req, 200, nil, c3BytesBody(c3ManifestJSON(c3Manifest{layers: []c3Layer{{n.dig, n.v.size, 0}}, config: c3Layer{"e", 0, 0}}))), nil
 	case host == c3RegHost && strings.Contains(path, "/blobs/"):
 		if req.Method == http.MethodHead {
 			return c3Resp(req, 200, map[string]string{"Content-Length": strconv.FormatInt(n.v.size, 10)}, nil), nil
